@@ -1,4 +1,5 @@
 import RactorModel.Lemmas.Spawn
+import RactorModel.Lemmas.SpawnClean
 import RactorModel.Extracted
 
 /-!
@@ -63,7 +64,7 @@ theorem failure_causes_fail (s : S) (a : Nat) (hst : isStarting s a = true) :
     unfold failStart
     simp only
     rw [getElem?_setActor]
-    have hlen : a < (release (killSubtree s.actors.length s (childrenOf s a)) a).actors.length := by
+    have hlen : a < (release (killSubtree (s.actors.length + 1) s [a]) a).actors.length := by
       rw [((frame_killSubtree s _ _).trans (frame_release _ a)).len]
       exact (List.getElem?_eq_some_iff.mp hx).1
     rw [List.getElem?_eq_getElem hlen]
@@ -237,6 +238,173 @@ example : childrenOf (run (exampleTL.take 4)) 0 = [1] := by decide
 example : (run exampleTL).ports = [.senderError] ∧ (run exampleTL).events = [] ∧ (run exampleTL).names = [] := by
   decide
 
+/-- **Fuel sufficiency of `terminate`** (`Spawn.killSubtree`, the worklist of `ActorCell::terminate`):
+the fuel `failStart` / `exitRunning` pass — number of actors + 1 — always suffices: ANY additional fuel
+leaves the result unchanged, in every state (also with `selflink` cycles). So every cell below a failed
+start (or an exiting actor) is killed and detached, not only those reached before a bound. -/
+theorem terminate_fuel_suffices (s : S) (a k : Nat) :
+    killSubtree (s.actors.length + 1 + k) s [a] = killSubtree (s.actors.length + 1) s [a] :=
+  killSubtree_fuel_add k (s.actors.length + 1) s [a] (by have := linkedCount_le s; simp; omega)
+
+/-- the general form: `#linked cells + |worklist|` pops are enough from any state and worklist -/
+theorem terminate_fuel_bound (f : Nat) (s : S) (l : List Nat) (h : linkedCount s + l.length ≤ f) :
+    killSubtree (f + 1) s l = killSubtree f s l := killSubtree_fuel f s l h
+
+/-- non-vacuity: a cycle made by `selflink` (0 is linked under its own child 1) plus two more children;
+the failed start of 0 takes everybody down and every actor ends unlinked -/
+example :
+    let s := run [.begin none none, .spawnChild 0, .selflink 0 1, .spawnChild 0, .spawnChild 0, .cut 0]
+    s.actors.map (fun x => (x.phase, x.linked)) =
+      [(.stopped, false), (.stopped, false), (.stopped, false), (.stopped, false)] := by decide
+
+/-! ### Round 4 — the cleanup of a failed spawn, component by component (`Model/SpawnClean.lean`)
+
+One spawn followed through `ActorCell::new`, `start` and `ActorLifecycleGuard::cleanup(None)` in
+the order the code runs it; every step changes one component (name registry, pid registry, process
+groups, supervision tree, waiters, mailbox and reply ports); casts, calls, `wait()`, external
+`pg::join`, stop, drain, kill and status changes of the supervisor are interleaved at EVERY step.
+Who "failed" is read off the spawn's own result (`W.res`), not a ghost flag. -/
+
+/-- **Nothing left behind — derived.** For every configuration (named / cluster / linked / instant /
+any side effects / any outcome of pre_start / start task dropped before its first poll) and EVERY
+interleaving of the spawn thread's steps with the other threads' requests: once a spawn that
+returned an error (or whose future was dropped) has finished its cleanup, its status is Stopped,
+the name and the pid are free, it is in no process group and monitors none, it is in no child set
+and has no supervisor, its own child set is closed, no `wait()` caller is still parked, its
+mailbox is empty and closed, no reply port queued to it is still waiting, no handler ran, no
+supervision event was emitted — and this stays so whatever is requested afterwards. -/
+theorem failed_spawn_cleanup_leaves_nothing (c : SpawnClean.Cfg) (ops : List SpawnClean.Op)
+    (hf : SpawnClean.failed (SpawnClean.run c ops) = true) (hd : (SpawnClean.run c ops).pc = .done) :
+    SpawnClean.clean (SpawnClean.run c ops) = true :=
+  SpawnClean.clean_of_inv _ (SpawnClean.inv_reach c ops) hf hd
+
+/-- the same as the run-time predicate the driver evaluates -/
+theorem spawnclean_ok_reachable (c : SpawnClean.Cfg) (ops : List SpawnClean.Op) :
+    SpawnClean.ok (SpawnClean.run c ops) = true := by
+  unfold SpawnClean.ok
+  cases hf : SpawnClean.failed (SpawnClean.run c ops)
+  · simp
+  · by_cases hd : (SpawnClean.run c ops).pc = .done
+    · simp [failed_spawn_cleanup_leaves_nothing c ops hf hd]
+    · simp [hd]
+
+/-- **Waiters are released — every one of them.** For a spawn that got a cell (no name clash): when a
+failed spawn has finished its cleanup, the number of `wait()` calls that have returned equals the number
+of `wait()` calls ever issued on the cell — before the start task was polled, during pre_start, in the
+middle of the cleanup, or afterwards — and none is parked. -/
+theorem every_waiter_returns (c : SpawnClean.Cfg) (hnc : (c.named && c.nameTaken) = false)
+    (rest : List SpawnClean.Op)
+    (hf : SpawnClean.failed (SpawnClean.run c (.begin :: rest)) = true)
+    (hd : (SpawnClean.run c (.begin :: rest)).pc = .done) :
+    (SpawnClean.run c (.begin :: rest)).released = rest.count .wait ∧
+    (SpawnClean.run c (.begin :: rest)).waiting = 0 := by
+  have hcl := failed_spawn_cleanup_leaves_nothing c (.begin :: rest) hf hd
+  have hw0 : (SpawnClean.run c (.begin :: rest)).waiting = 0 := by
+    simp only [SpawnClean.clean, Bool.and_eq_true, beq_iff_eq] at hcl
+    exact hcl.1.1.1.1.1.2
+  have hb : (SpawnClean.step c {} .begin).exists_ = true ∧ (SpawnClean.step c {} .begin).pc ≠ .init ∧
+      (SpawnClean.step c {} .begin).waiting = 0 ∧ (SpawnClean.step c {} .begin).released = 0 := by
+    simp only [SpawnClean.step, hnc]
+    cases c.instant <;> simp
+  have hs := SpawnClean.waitSum_run c rest _ hb.1 hb.2.1
+  simp only [SpawnClean.run, List.foldl_cons] at hw0 ⊢
+  rw [hb.2.2.1, hb.2.2.2] at hs
+  omega
+
+/-- **A name clash changes nothing**: the spawn fails at once with `AlreadyRegistered`, no cell is ever
+visible, and whatever is requested afterwards no component of the world is touched (the holder of the
+name is a constant of the model: `Cfg.nameTaken`). -/
+theorem name_clash_touches_nothing (c : SpawnClean.Cfg) (hn : c.named = true) (ht : c.nameTaken = true)
+    (rest : List SpawnClean.Op) : SpawnClean.Untouched (SpawnClean.run c (.begin :: rest)) := by
+  simp only [SpawnClean.run, List.foldl_cons]
+  apply SpawnClean.untouched_run
+  simp only [SpawnClean.step, hn, ht]
+  constructor <;> simp
+
+/-- **The cleanup always completes**: from any state inside the cleanup, whatever the other threads
+did before, `togo` further steps of the spawn thread end it (`done`). -/
+theorem cleanup_runs_to_completion (c : SpawnClean.Cfg) (n : Nat) : ∀ w : SpawnClean.W,
+    w.pc.inCleanup = true → w.pc.togo ≤ n →
+    ((List.replicate n SpawnClean.Op.step).foldl (SpawnClean.step c) w).pc = .done := by
+  induction n with
+  | zero => intro w h hn; simp [SpawnClean.Pc.inCleanup] at h; omega
+  | succ n ih =>
+    intro w h hn
+    have hs := SpawnClean.togo_step c w h
+    simp only [List.replicate_succ, List.foldl_cons, SpawnClean.step]
+    rcases hs.2 with h2 | h2
+    · exact ih _ h2 (by omega)
+    · have : ∀ m (w' : SpawnClean.W), w'.pc = .done →
+          ((List.replicate m SpawnClean.Op.step).foldl (SpawnClean.step c) w').pc = .done := by
+        intro m
+        induction m with
+        | zero => intro w' h'; exact h'
+        | succ m ihm =>
+          intro w' h'
+          simp only [List.replicate_succ, List.foldl_cons, SpawnClean.step]
+          exact ihm _ (by simp [SpawnClean.spawnStep, h'])
+      exact this n _ h2
+
+/-- **Every failure cause takes the cleanup path and makes the spawn's result an error**: pre_start
+Err, panic, the future dropped at the await point, a kill that wins against pre_start, a refusing
+supervisor — Draining, Stopping or Stopped — at link time, the instant start task dropped before its
+first poll, a kill already pending when the start task is polled. -/
+theorem every_failure_cause_fails (c : SpawnClean.Cfg) (w : SpawnClean.W) :
+    (w.pc = .pre → (c.outcome = .err ∨ c.outcome = .panic ∨ c.outcome = .cut) →
+      SpawnClean.failed (SpawnClean.spawnStep c w) = true ∧ (SpawnClean.spawnStep c w).pc = .cStopping) ∧
+    (w.pc = .pre → c.outcome = .yieldThenOk → w.killReq = true →
+      SpawnClean.failed (SpawnClean.spawnStep c w) = true ∧ (SpawnClean.spawnStep c w).pc = .kTake) ∧
+    (w.pc = .link → 4 ≤ w.supStatus →
+      SpawnClean.failed (SpawnClean.spawnStep c w) = true ∧ (SpawnClean.spawnStep c w).pc = .cStopping) ∧
+    (w.pc = .unstarted → c.cut0 = true →
+      SpawnClean.failed (SpawnClean.spawnStep c w) = true ∧ (SpawnClean.spawnStep c w).pc = .cStopping) ∧
+    (w.pc = .pubStarting → w.killReq = true →
+      SpawnClean.failed (SpawnClean.spawnStep c w) = true ∧ (SpawnClean.spawnStep c w).pc = .kTake) := by
+  refine ⟨?_, ?_, ?_, ?_, ?_⟩
+  · intro hp ho
+    rcases ho with ho | ho | ho <;> simp [SpawnClean.spawnStep, hp, ho, SpawnClean.failed]
+  · intro hp ho hk; simp [SpawnClean.spawnStep, hp, ho, hk, SpawnClean.failed]
+  · intro hp hs
+    have : SpawnClean.linkRefused w = true := by simp [SpawnClean.linkRefused]; omega
+    simp [SpawnClean.spawnStep, hp, this, SpawnClean.failed]
+  · intro hp hc; simp [SpawnClean.spawnStep, hp, hc, SpawnClean.failed]
+  · intro hp hk; simp [SpawnClean.spawnStep, hp, hk, SpawnClean.failed]
+
+/-- A child that a `drain()` lifted to Draining while pre_start ran is NOT a failure cause (fix
+ee38a9c, finding F9 of C07): an accepting supervisor links it. -/
+theorem drained_child_still_links (c : SpawnClean.Cfg) (w : SpawnClean.W) (hp : w.pc = .link)
+    (hst : w.status ≤ 4) (hs : w.supStatus < 4) :
+    (SpawnClean.spawnStep c w).res = .ok ∧ (SpawnClean.spawnStep c w).supKids = true := by
+  have : SpawnClean.linkRefused w = false := by simp [SpawnClean.linkRefused]; omega
+  simp [SpawnClean.spawnStep, hp, this]
+
+/-- the order of the clean-up inside `ActorCell::set_status`, as the model runs it -/
+theorem src_set_status_order : Extracted.setStatusOrder =
+    ["inner.set_status", "demonitor", "unregister_pid", "unregister", "demonitor_all", "leave_all",
+     "notify_stop_listener"] := by decide
+
+/-- Non-vacuity: a named, linked spawn in a cluster build whose pre_start joined two groups,
+monitors one and sent itself a message; a cast, a call, a `wait()` and an external join arrive
+while pre_start is suspended; the supervisor starts draining; pre_start returns Ok; the link is
+refused; a second call and a second `wait()` arrive in the middle of the cleanup. -/
+def exampleClean : List SpawnClean.Op :=
+  [.begin, .step, .cast, .call, .wait, .joinExt 7, .supSet 4, .step, .step, .call, .wait, .step, .step, .step,
+   .step, .step, .call, .step, .step, .step, .step, .step, .step, .step, .step, .step, .wait, .call]
+
+def exampleCfg : SpawnClean.Cfg :=
+  { cluster := true, named := true, linked := true, joins := [1, 2], mons := [3], selfsends := 1, outcome := .ok }
+
+example : (SpawnClean.run exampleCfg (exampleClean.take 8)).pc = .link ∧
+    (SpawnClean.run exampleCfg (exampleClean.take 8)).members = [1, 2, 7] ∧
+    (SpawnClean.run exampleCfg (exampleClean.take 8)).nameMine = true ∧
+    (SpawnClean.run exampleCfg (exampleClean.take 8)).pidReg = true ∧
+    (SpawnClean.run exampleCfg (exampleClean.take 8)).waiting = 1 := by decide
+example : (SpawnClean.run exampleCfg exampleClean).pc = .done ∧
+    (SpawnClean.run exampleCfg exampleClean).res = .err ∧
+    (SpawnClean.run exampleCfg exampleClean).ports = [.senderError, .senderError, .sendErr, .sendErr] ∧
+    (SpawnClean.run exampleCfg exampleClean).released = 3 ∧ exampleClean.count .wait = 3 ∧
+    SpawnClean.clean (SpawnClean.run exampleCfg exampleClean) = true := by decide
+
 end C08
 
 #print axioms C08.ok_reachable
@@ -257,3 +425,13 @@ end C08
 #print axioms C08.src_start_single_await
 #print axioms C08.src_local_start_order
 #print axioms C08.src_cleanup_order
+#print axioms C08.terminate_fuel_suffices
+#print axioms C08.terminate_fuel_bound
+#print axioms C08.failed_spawn_cleanup_leaves_nothing
+#print axioms C08.spawnclean_ok_reachable
+#print axioms C08.every_waiter_returns
+#print axioms C08.name_clash_touches_nothing
+#print axioms C08.cleanup_runs_to_completion
+#print axioms C08.every_failure_cause_fails
+#print axioms C08.drained_child_still_links
+#print axioms C08.src_set_status_order
